@@ -313,6 +313,22 @@ pub fn run(out: &mut Out, tier: &str, rng: &mut Rng) {
         out.case("li_cmp", &[&a, &b], || li_cmp(&a, &b));
         let t = if rng.chance(1, 2) { gen_call(|| LanguageIdentifier::from_bytes(&a).map(|x| x.to_string()).unwrap_or_default()).unwrap_or_default().into_bytes() } else { b.clone() };
         if std::str::from_utf8(&t).is_ok() { out.case("li_eq_str", &[&a, &t], || li_eq_str(&a, &t)); }
+        // the canonical text with a subtag deleted, doubled or moved (never equal to the canonical text itself)
+        if rng.chance(1, 3) {
+            if let Ok(s) = String::from_utf8(t.clone()) {
+                let mut parts: Vec<&str> = s.split('-').collect();
+                if parts.len() >= 2 {
+                    let i = rng.below(parts.len());
+                    match rng.below(3) {
+                        0 => { parts.remove(i); }
+                        1 => { let d = parts[i]; parts.insert(i, d); }
+                        _ => { let d = parts.remove(i); let j = rng.below(parts.len() + 1); parts.insert(j, d); }
+                    }
+                    let u = parts.join("-");
+                    out.case("li_eq_str", &[&a, u.as_bytes()], || li_eq_str(&a, u.as_bytes()));
+                }
+            }
+        }
         // the canonical text with one character replaced by a 2- or 3-byte character (never equal; never a panic)
         if rng.chance(1, 3) {
             if let Ok(s) = String::from_utf8(t.clone()) {
